@@ -95,6 +95,12 @@ func New(env *hx.Env) *R {
 
 func (r *R) Module() string { return "coinswap" }
 
+// State is the canonical state projection carried by every observation line (hx.Stater).
+func (r *R) State(ctx sdk.Context) string { return r.state(ctx) }
+
+var _ hx.Runner = (*R)(nil)
+var _ hx.Stater = (*R)(nil)
+
 func (r *R) addr(sym string) string {
 	if a, ok := r.addrs[sym]; ok {
 		return a.String()
